@@ -24,7 +24,8 @@ func init() {
 	sym.Register("c14.HHelpers", HHelpers)
 }
 
-// tree builds the C14 seed: /w/a/ (a, b files), /w/ab/ (empty), /w/b file, /w/c -> a (symlink-capable only).
+// tree builds the C14 seed: /w/a/ (a, b files), /w/ab/ (empty), /w/b file, /w/e empty file;
+// symlink-capable only: /w/c -> a, /w/d -> ab (empty directory), /w/f -> e (empty file).
 func tree(w sysx.Sys, links bool) {
 	must(w.MkdirAll("/w/a", 0o755))
 	must(w.Mkdir("/w/ab", 0o755))
@@ -33,10 +34,19 @@ func tree(w sysx.Sys, links bool) {
 		must(c)
 		must(c2)
 	}
+	c, _ := w.OpenWrite("/w/e", 1|0x40|0x200, 0o644, nil)
+	must(c)
 	if links {
 		must(w.Symlink("a", "/w/c"))
+		must(w.Symlink("ab", "/w/d"))
+		must(w.Symlink("e", "/w/f"))
 	}
 }
+
+// prefixes of the Glob patterns: below the scratch directory, at the root, and
+// relative to the working directory /w
+var globPrefix = []string{"/w/", "/", ""}
+var globPrefixName = []string{"below-dir", "root-level", "relative"}
 
 func must(c int) {
 	if c != 0 {
@@ -68,8 +78,8 @@ func eqStrings(a, b []string) bool {
 	return true
 }
 
-// HGlob: Glob("/w/" + n symbolic bytes) equals Go's Glob algorithm over the same tree.
-func HGlob(kind, n int) {
+// HGlob: Glob(prefix + n symbolic bytes) equals Go's Glob algorithm over the same tree.
+func HGlob(kind, n, pfx int) {
 	v, base := wrapKind(kind)
 	links := base.HasFeature(avfs.FeatSymlink)
 	tree(sysx.ImplSys{V: base}, links)
@@ -77,8 +87,12 @@ func HGlob(kind, n int) {
 	for i := 0; i < len(s); i++ {
 		sym.Assume(s[i] != 0)
 	}
-	pattern := "/w/" + s
-	label := hx.KindName(kind) + "|Glob"
+	pattern := globPrefix[pfx] + s
+	if pfx == 2 {
+		sym.Assume(len(s) > 0 && s[0] != '/')
+		hx.Must(v.Chdir("/w"))
+	}
+	label := hx.KindName(kind) + "|Glob|" + globPrefixName[pfx]
 	sym.Label(label)
 	sym.Reach("glob")
 	var got []string
@@ -89,9 +103,16 @@ func HGlob(kind, n int) {
 	if sym.Native() {
 		k := sysx.NewKernel()
 		tree(k, links)
-		km, kerr := filepath.Glob(k.Root + pattern)
-		for i := range km {
-			km[i] = km[i][len(k.Root):]
+		var km []string
+		var kerr error
+		if pfx == 2 {
+			_ = k.Chdir("/w")
+			km, kerr = filepath.Glob(pattern)
+		} else {
+			km, kerr = filepath.Glob(k.Root + pattern)
+			for i := range km {
+				km[i] = km[i][len(k.Root):]
+			}
 		}
 		// the port of the algorithm is validated on the kernel's own tree
 		kwant, kbad := sysx.RefGlob(k, pattern)
